@@ -99,13 +99,37 @@ def run(program, rep, tier, sleep_only=False):
     OFN = OF or 'wait_time'
     # ---- writes of the timer, whole class ----------------------------------
     n_w = 0
+    from .util import methods_of, called_only_from
+    frame_only, _ = called_only_from(methods_of(program, cp), {'process'})
+
+    def _is_frame_delta(m, value):
+        """`value` is the frame's dt: the parameter of process() itself, or
+        the parameter of a private helper (run only as part of process) that
+        every call site binds to an unmodified frame delta."""
+        if m is f:
+            return norm(value) == dtp
+        if m.name not in frame_only or not isinstance(value, ast.Name) \
+                or value.id not in m.params():
+            return False
+        pos = m.params().index(value.id) - 1
+        sites = []
+        for caller in cp.methods.values():
+            for c in ast.walk(caller.node):
+                if isinstance(c, ast.Call) and norm(c.func) == \
+                        f'self.{m.name}':
+                    arg = c.args[pos] if pos < len(c.args) else next(
+                        (k.value for k in c.keywords if k.arg == value.id),
+                        None)
+                    sites.append(arg is not None
+                                 and _is_frame_delta(caller, arg))
+        return bool(sites) and all(sites)
     for m in cp.methods.values():
         for n in ast.walk(m.node):
             tgt = None
             if isinstance(n, ast.AugAssign) and norm(n.target) == T:
                 n_w += 1
-                ok = isinstance(n.op, ast.Add) and norm(n.value) == dtp \
-                    and m is f
+                ok = isinstance(n.op, ast.Add) and _is_frame_delta(
+                    m, n.value)
                 rep.check(ok, 'C08.writes', m.where, n,
                           'the timer advances by the unmodified dt',
                           'the timer is changed by something other than '
